@@ -59,6 +59,12 @@ impl Check for UnrealisedPnl {
     type Case = PnlCase;
     const NAME: &'static str = "unrealised_pnl";
 
+    fn normalise(mut case: PnlCase) -> PnlCase {
+        // full account snapshots are not part of this check's input domain
+        case.events.retain(|e| !matches!(e, EvSpec::AccountSnapshot { .. }));
+        case
+    }
+
     fn strategy(tier: Tier) -> BoxedStrategy<PnlCase> {
         let max = match tier {
             Tier::Quick => 30,
